@@ -35,7 +35,9 @@ HOST, PORT = "pool.test", 80
 
 
 def parse_op(op: str):
-    """'r1O' -> ('r', 1, 'O'); 'l' -> ('l',); 'c' -> ('c',)"""
+    """'r1O' -> ('r', 1, 'O'); 'l' -> ('l',); 'c' -> ('c',).  Last letter of a request: O = keep-alive reply,
+    F = the last attempt fails, C = the reply carries `Connection: close` (the connection object goes back to
+    the pool with its socket closed)."""
     if op in ("l", "c"):
         return (op,)
     return (op[0], int(op[1:-1]), op[-1])
@@ -83,6 +85,12 @@ class Run:
                 peer.reply(b"\x16\x03\x01 not http\r\n\r\n")
             return
         body = f"{tag}#{n}".encode()
+        if last == "C":
+            # `Connection: close`: http.client closes the connection's socket (`getresponse`: will_close), the
+            # socket object lives on inside the response until the body has been read; the peer closes too
+            peer.reply(http_response(200, [("X-Tag", tag), ("Connection", "close")], body))
+            peer.close()
+            return
         peer.reply(http_response(200, [("X-Tag", tag)], body))
 
     def on_connect(self, sock, host, port):
@@ -111,6 +119,7 @@ class Run:
         pool = self.pool
         resp = None
         resp_tag = None
+        resp_closing = False
         for k, op in enumerate(self.progs[t]):
             p = parse_op(op)
             try:
@@ -125,7 +134,7 @@ class Run:
                         if res == "wrong":
                             self.violations.append(("wrong-response", f"request {tag} got body {r.data!r}"))
                     else:
-                        resp, resp_tag = r, want
+                        resp, resp_tag, resp_closing = r, want, p[2] == "C"
                         res = "ok" if (r.status == 200 and r.headers.get("X-Tag") == tag) else "wrong"
                         if res == "wrong":
                             self.violations.append(("wrong-response", f"request {tag} got headers of {r.headers.get('X-Tag')!r}"))
@@ -133,6 +142,10 @@ class Run:
                     res = "ok"
                     if resp is not None:
                         r, resp = resp, None
+                        if resp_closing and self.sched is not None:
+                            # reading a `Connection: close` body to its end closes the socket (a step of its
+                            # own in the model, before `release_conn` touches the pool)
+                            self.sched.yield_point(("U", "read"))
                         data = r.read()            # reaching EOF releases the connection …
                         r.release_conn()           # … so this second release must do nothing
                         if data != resp_tag:
@@ -169,6 +182,7 @@ class Run:
             finally:
                 H.run = None
             self.pool_closed = self.pool.pool is None
+            self.final_qsize = None if self.pool_closed else self.pool.pool.qsize()
             for w in self.sched.workers:
                 if w.error is not None:
                     raise S.SchedError(f"worker {w.idx} died: {w.error!r}")
@@ -258,12 +272,30 @@ def build_classes():
 # ------------------------------------------------------------------------------------- generation
 
 REQ_KINDS = [["r0O"], ["r1O"], ["r0F"], ["s0O", "l"], ["s1O", "l"], ["r1F"], ["s0O", "l", "l"]]
+# replies with `Connection: close`: the connection object is pooled with its socket closed
+CLOSE_KINDS = [["r0C"], ["s0C", "l"], ["r1C"]]
+
+
+def lease_discipline(prog):
+    """`disc false prog` of the Lean model: every streamed response is released before the thread's next
+    request and before the thread ends; no close()"""
+    held = False
+    for op in prog:
+        if op == "c":
+            return False
+        if op == "l":
+            held = False
+        else:
+            if held:
+                return False
+            held = op[0] == "s"
+    return not held
 
 
 def thread_progs(nreq):
-    """all thread programs with exactly nreq requests over REQ_KINDS[:5]"""
+    """all thread programs with exactly nreq requests over REQ_KINDS[:5] + CLOSE_KINDS[:2]"""
     out = []
-    for combo in itertools.product(REQ_KINDS[:5], repeat=nreq):
+    for combo in itertools.product(REQ_KINDS[:5] + CLOSE_KINDS[:2], repeat=nreq):
         out.append([op for part in combo for op in part])
     return out
 
@@ -358,6 +390,11 @@ class C02(Prop):
         # extras: MaxRetryError after a retry, explicit double release, closer first in thread order
         extras = [[["r1F"], ["r0O"], ["c"]], [["s0O", "l", "l"], ["r0O"], ["c"]], [["c"], ["r0O"], ["r1O"]],
                   [["r1F"], ["s1O", "l"]], [["r0O", "c"], ["r0O"]], [["s0O", "c", "l"], ["r0O"]]]
+        # a connection object pooled CLOSED (`Connection: close`) lying on top of a live one, then checked out
+        # again: the dropped-connection branch of `_get_conn` with other items below it in the queue
+        extras += [[["r0C", "r0O"], ["r0O", "r0O"]], [["r0C"], ["r0O"], ["r0O"]],
+                   [["s0C", "l", "r0O"], ["r0O", "r0O"]], [["r0C", "r0C"], ["r0C", "r0O"]],
+                   [["r1C"], ["r0O", "r0O"]], [["r0C", "r0O"], ["s0O", "l"], ["c"]]]
         for p in extras:
             confs.append((p, "extra"))
         for progs, shape in confs:
@@ -383,6 +420,8 @@ class C02(Prop):
         """the property text, on the implementation's behaviour in one schedule -> [(signature, what)]"""
         out = list(r.violations)                   # shared-connection / wrong-response, recorded on the fly
         has_closer = any("c" in p for p in r.progs)
+        disciplined = (not has_closer) and all(lease_discipline(p) for p in r.progs)
+        requesters = sum(1 for p in r.progs if any(op[0] in "rs" for op in p))
         if r.block and r.maxopen > r.maxsize:
             out.append(("block-bound-exceeded", f"block=True maxsize={r.maxsize} but {r.maxopen} sockets open at once"))
         if s.deadlock is not None:
@@ -405,12 +444,27 @@ class C02(Prop):
                 elif res == "wrong":
                     pass                            # already recorded
                 elif p[0] in "rs":
-                    ok = ((res == "ok" and p[2] == "O") or (res == "failed" and p[2] == "F")
+                    ok = ((res == "ok" and p[2] in "OC") or (res == "failed" and p[2] == "F")
                           or (res == "closed" and has_closer) or (res == "empty" and r.block and r.timeout))
-                    if not ok:
+                    if res == "empty" and ok and disciplined and requesters <= r.maxsize:
+                        # every thread holds at most one slot at a time and there are no more requesting
+                        # threads than slots: a pool that conserves its slots is never found empty
+                        out.append(("lost-slot:empty-pool-error-with-free-slot",
+                                    f"request {prog[k]} of thread {t}: EmptyPoolError although only {requesters} "
+                                    f"thread(s) share {r.maxsize} slot(s), each holding at most one at a time"))
+                    elif not ok:
                         out.append(("unexpected-result:" + res, f"request {prog[k]} of thread {t} ended with {res}"))
                 elif res != "ok":
                     out.append(("unexpected-result:" + res, f"op {prog[k]} of thread {t} ended with {res}"))
+        complete = s.deadlock is None and all(len(r.results[t]) == len(p) for t, p in enumerate(r.progs))
+        if (r.block and disciplined and complete and r.final_qsize is not None
+                and r.final_qsize != r.maxsize
+                and not any(res == "full" for rs in r.results for res in rs)):
+            # "no lost slot": every thread is finished, every streamed response released, nobody closed the
+            # pool — all maxsize slots are back in the queue (Lean: C02_quiescent_slots)
+            out.append(("lost-slot:quiescent-qsize",
+                        f"block=True maxsize={r.maxsize}: all threads finished and released everything, but the "
+                        f"pool's queue holds {r.final_qsize} item(s)"))
         if r.open_after_drop:
             out.append(("socket-open-after-drop", f"{r.open_after_drop} socket(s) still open after the pool object was dropped"))
         return out
